@@ -19,7 +19,9 @@ unsafe.Sizeof-like facts of func values.
 import json
 import os
 import re
+import shutil
 import threading
+import time
 from concurrent.futures import ThreadPoolExecutor
 
 from . import common as C
@@ -271,6 +273,8 @@ class Program:
         self.expected = {}      # id -> text (all variants)
         self.call_ids = set()   # ids only present in variants that call methods
         self.meta = {}          # id -> (term key, query)
+        self.terms = {}         # term key -> term
+        self.term_key = {}      # "t<n>" -> term key
         self.nterms = 0
 
     def exp(self, id_, text, key, query, call=False):
@@ -288,6 +292,8 @@ class Program:
         self.nterms += 1
         tid = "t%d" % n
         key = c["key"]
+        self.terms[key] = t
+        self.term_key[tid] = key
         common = ["desc(%s, reflect.TypeOf((*%s)(nil)).Elem())" % (json.dumps(tid), typexpr(t))]
         for q in c["q"]:
             self.exp(tid + "." + q["n"], q["r"], key, q["n"])
@@ -483,12 +489,19 @@ def build_and_run(chk, name, src, stdin, tool, modname="main"):
     d = os.path.join(rd, "prog-" + name)
     C.write_module(d, {"main.go": src}, modname=modname)
     exe = os.path.join(d, "a.out")
+    t0 = time.time()
     if tool == "go":
-        ok, out = C.go_build(d, exe)
+        ok, out = C.go_build(d, exe, timeout=1800)
     else:
+        # concurrent llgo processes must not write one cache: every program gets a private copy of the golden cache
+        cache = os.path.join(d, "cache")
+        shutil.copytree(C.golden_cache("O0", "O0", ""), cache)
         ok, out = C.llgo_build(d, exe, opt="O0", rundir=d, timeout=3000,
-                               extra_env={"CCC_OVERRIDE_OPTIONS": "# +" + uv_stub_object(rd)})
+                               extra_env={"CCC_OVERRIDE_OPTIONS": "# +" + uv_stub_object(rd), "XDG_CACHE_HOME": cache})
+        shutil.rmtree(cache, ignore_errors=True)
+    C.log("C15: %s build of %s: %s in %.0fs" % (tool, name, "ok" if ok else "FAILED", time.time() - t0))
     if not ok:
+        C.log(out[-1500:])
         return {"ok": False, "build_out": out, "status": None, "lines": {}, "extra": []}
     st, so, se = C.run_exe(exe, stdin=stdin.encode(), timeout=1200, merge=True)
     lines, extra = parse_lines(so)
@@ -496,9 +509,12 @@ def build_and_run(chk, name, src, stdin, tool, modname="main"):
 
 
 # ----------------------------------------------------------------------------- known deviation classes
-# A class folds the instances of ONE known defect onto its representative key (listed in known-findings.txt): an
-# observed line is folded only when it equals the expected line rewritten by the class's exact transformation.
-# If the representative itself passes (defect fixed) nothing is folded and every instance is judged strictly.
+# A class folds the instances of ONE known defect onto its representative key (the key listed in known-findings.txt).
+# The representative is a fixed term judged in the "fixed" program of every run.  Only while the representative itself
+# fails is the class active.  A line class folds an observed line only when it equals the expected line rewritten by
+# the class's exact transformation; a term class keeps seeded generation away from the terms it describes (they would
+# all fail the same way) and folds the representative term's other lines.  When a defect is fixed the representative
+# passes, nothing is folded or avoided, and every instance is judged strictly.
 
 def strip_tags(s):
     return re.sub(r' "(?:[^"\\]|\\.)*"(?=;| \})', "", s)
@@ -543,44 +559,74 @@ def tight_typeargs(s):
                 depth += 1
             elif ch == "]":
                 depth -= 1
-            elif s.startswith("struct { ", i):
-                res.append("struct{")
-                i += 9
-                continue
-            elif s.startswith("interface { ", i):
-                res.append("interface{")
-                i += 12
-                continue
-            elif s.startswith("struct {}", i):
-                res.append("struct{}")
-                i += 9
-                continue
-            elif s.startswith("interface {}", i):
-                res.append("interface{}")
-                i += 12
-                continue
-            elif s.startswith(" }", i):
-                res.append("}")
-                i += 2
-                continue
+            else:
+                hit = False
+                for a, b in (("struct {}", "struct{}"), ("interface {}", "interface{}"), ("struct { ", "struct{"),
+                             ("interface { ", "interface{"), (" }", "}")):
+                    if s.startswith(a, i):
+                        res.append(b)
+                        i += len(a)
+                        hit = True
+                        break
+                if hit:
+                    continue
+                m = re.match(r"main\.([a-d] |m0\(\))", s[i:])     # unexported field / method names lose their qualifier
+                if m and res and res[-1][-1:] in ("{", " "):
+                    res.append(m.group(1))
+                    i += m.end()
+                    continue
         res.append(ch)
         i += 1
     return "".join(res)
 
 
-CLASSES = [
-    # (class id, representative key, applies(query), transformation of the expected text)
-    ("struct-tag-in-type-string", "str:struct_{_A_int_\"t\"_}", lambda q: True, strip_tags),
-    ("chan-of-recv-chan-parens", "str:chan_(<-chan_int)", lambda q: True, strip_chan_parens),
+def contains(term, pred):
+    if pred(term):
+        return True
+    for key in ("e", "a", "u", "key"):
+        if key in term and isinstance(term[key], dict) and contains(term[key], pred):
+            return True
+    for key in ("ps", "rs"):
+        if key in term and any(contains(x, pred) for x in term[key]):
+            return True
+    if term["k"] == "struct" and any(contains(f["t"], pred) for f in term["fs"]):
+        return True
+    return False
+
+
+def has_named_func(term):
+    return contains(term, lambda t: t["k"] == "named" and kind_of(t["u"]) == "func")
+
+
+def any_tag(s):
+    """Field(i) line: Name "tag" Anonymous ...: which of two struct types that differ only in tags provides the
+    descriptor depends on the rest of the program, so the tag may be that of the other one"""
+    return re.sub(r'^(\S+) "(?:[^"\\]|\\.)*" ', r'\1 "?" ', s)
+
+
+LINE_CLASSES = [
+    # (class id, representative finding key, query filter, transformation of the expected text)
     ("typearg-literal-spacing", "str:main.G[struct_{_A_int_}]", lambda q: True, tight_typeargs),
+    ("struct-tag-in-type-string", 'str:struct_{_A_int_"t"_}', lambda q: True, strip_tags),
+    ("chan-of-recv-chan-parens", "str:chan_(<-chan_int)", lambda q: True, strip_chan_parens),
     ("named-interface-pkgpath", "pkg:main.NIM1_Znone", lambda q: q == "pkg", lambda s: "" if s == "main" else s),
-    ("convert-int-interface", "convert:int->int8:1", lambda q: True, None),   # handled on the conversion table
+]
+TERM_CLASSES = [
+    # (class id, representative finding key, predicate on terms)
+    ("named-func-type", "kind:main.NF__Znone", has_named_func),
+]
+MODPATH_REP = "pkg:module=vmod:main.NSXint__ZvMpM"
+TABLE_CLASSES = [
+    # (class id, representative finding key, predicate on (key, query, got))
+    ("convert-int-interface", "1:convert:int->int8", lambda key, q, got: key.startswith("convert:") and got == "PANIC"),
 ]
 
 
 def explain(expected, observed, query, active):
-    """subset of active classes whose composed transformations turn expected into observed, or None"""
-    cl = [c for c in CLASSES if c[0] in active and c[3] is not None and c[2](query)]
+    """the active line classes whose composed transformations turn expected into observed, or None"""
+    if "struct-tag-in-type-string" in active and re.fullmatch(r"f\d+", query) and any_tag(expected) == any_tag(observed):
+        return ["struct-tag-in-type-string"]
+    cl = [c for c in LINE_CLASSES if c[0] in active and c[2](query)]
     n = len(cl)
     for mask in range(1, 1 << n):
         s = expected
@@ -600,11 +646,15 @@ def keyify(s):
     return re.sub(r"\s+", "_", s)
 
 
+def finding_key(f):
+    return keyify("%s:%s" % (f["query"], f["key"]))
+
+
 # ----------------------------------------------------------------------------- the check
 
 def select_consts(tier, sd):
     if tier == "thorough":
-        return {"MaxDepth": 2, "M0": 1, "M1": 1, "M2": 6, "M3": 1, "Sel": sd}
+        return {"MaxDepth": 2, "M0": 1, "M1": 1, "M2": 12, "M3": 1, "Sel": sd}
     return {"MaxDepth": 2, "M0": 2, "M1": 5, "M2": 110, "M3": 1, "Sel": sd}
 
 
@@ -631,7 +681,7 @@ def gated(term, under_named=False):
     return False
 
 
-def compare(chk, prog, name, variant, run, agreed, stats, findings):
+def compare(prog, name, variant, run, agreed, stats, findings):
     """judge one llgo run against the specification on the ids the reference confirmed"""
     ids = prog.ids_for(variant) & agreed
     for i in sorted(ids):
@@ -642,152 +692,274 @@ def compare(chk, prog, name, variant, run, agreed, stats, findings):
             continue
         key, query = prog.meta[i]
         findings.append({"id": i, "key": key, "query": query, "want": want, "got": got, "program": name, "variant": variant})
-    unknown = [i for i in run["lines"] if i not in prog.expected and i != "done"]
-    if unknown:
-        raise C.Undecided("program %s printed ids the specification does not know: %s" % (name, unknown[:5]))
+    for i, got in run["lines"].items():
+        if i in prog.expected or i == "done":
+            continue
+        # a line the specification does not have for this term (e.g. fields of a type whose kind is not struct)
+        tid = i.split(".")[0]
+        key = prog.term_key.get(tid)
+        if key is None:
+            raise C.Undecided("program %s printed an id that belongs to no term: %s" % (name, i))
+        findings.append({"id": i, "key": key, "query": "extra." + i.split(".", 1)[1], "want": None, "got": got,
+                         "program": name, "variant": variant})
+
+
+class Judge:
+    def __init__(self, chk):
+        self.chk = chk
+        self.active = set()
+        self.folded = chk.cov.setdefault("folded_into_known_classes", {})
+
+    def activate(self, findings):
+        keys = {finding_key(f) for f in findings}
+        for cid, rep, *_ in LINE_CLASSES + TERM_CLASSES + TABLE_CLASSES:
+            if rep in keys:
+                self.active.add(cid)
+
+    def avoided(self, term):
+        return [cid for cid, rep, pred in TERM_CLASSES if cid in self.active and pred(term)]
+
+    def report(self, findings, prog):
+        by_key = {}
+        for f in findings:
+            by_key.setdefault(finding_key(f), []).append(f)
+        reps = {rep: cid for cid, rep, *_ in LINE_CLASSES + TERM_CLASSES + TABLE_CLASSES}
+        for key in sorted(by_key):
+            fs = by_key[key]
+            f = fs[0]
+            if key not in reps:
+                used = None
+                if f["got"] is not None and f["want"] is not None:
+                    used = explain(f["want"], f["got"], f["query"].split(":")[0], self.active)
+                if used is None:
+                    term = prog.terms.get(f["key"])
+                    if term is not None:
+                        used = [cid for cid, rep, pred in TERM_CLASSES if cid in self.active and pred(term)] or None
+                if used is None:
+                    used = [cid for cid, rep, pred in TABLE_CLASSES if cid in self.active and pred(f["key"], f["query"], f["got"])] or None
+                if used:
+                    for u in used:
+                        self.folded[u] = self.folded.get(u, 0) + len(fs)
+                    continue
+            desc = "%s of %s: specification %r, llgo %r (variants %s)" % (f["query"], f["key"], f["want"], f["got"],
+                                                                         sorted({x["variant"] for x in fs}))
+            C.log("C15: rejected " + key)
+            self.chk.reject(key, desc, {"term": f["key"], "query": f["query"], "expected": f["want"], "observed": f["got"],
+                                        "variants": sorted({x["variant"] for x in fs}), "line_id": f["id"],
+                                        "class": reps.get(key)})
+
+
+def reference_agreed(prog, refs, label, chk):
+    """ids whose specification text every reference run confirms; the others are dropped and counted"""
+    agreed = set()
+    bad = []
+    for i, want in prog.expected.items():
+        rs = [r for r in refs if i in prog.ids_for(r["variant"])]
+        if all(r["lines"].get(i) == want for r in rs):
+            agreed.add(i)
+        else:
+            bad.append({"id": i, "meta": prog.meta[i], "spec": want, "reference": rs[0]["lines"].get(i)})
+    for r in refs:
+        extra = [i for i in r["lines"] if i not in prog.expected and i != "done"]
+        if extra:
+            raise C.Undecided("%s: the reference program prints ids the specification does not have: %s" % (label, extra[:5]))
+    chk.cov["spec_lines"] = chk.cov.get("spec_lines", 0) + len(prog.expected)
+    chk.cov["spec_lines_rejected_by_reference"] = chk.cov.get("spec_lines_rejected_by_reference", 0) + len(bad)
+    if bad:
+        C.log("C15: %s: the reference toolchain disagrees with the specification on %d lines, e.g. %s" % (label, len(bad), bad[:3]))
+        chk.cov.setdefault("spec_disagreement_samples", []).extend(bad[:5])
+    if len(bad) > max(5, len(prog.expected) // 200):
+        raise C.Undecided("%s: the specification disagrees with the reference toolchain on %d of %d lines: the specification is wrong; "
+                          "first: %s" % (label, len(bad), len(prog.expected), bad[:5]))
+    return agreed
+
+
+def need_ref(r, what):
+    if not r["ok"] or r["status"] != 0 or "done" not in r["lines"]:
+        raise C.Undecided("the reference toolchain cannot build/run %s:\n%s\n%s" % (what, r["build_out"][-2500:], r["extra"][:10]))
+    return r
+
+
+def judge_llgo_run(chk, prog, name, v, run, agreed, stats, findings):
+    if not run["ok"]:
+        m = re.search(r"panic: [^\n]*", run["build_out"])
+        chk.reject("build:%s:%s" % (name, v), "llgo cannot build the generated program %s (variant %s): %s" %
+                   (name, v, m.group(0) if m else run["build_out"][-800:]),
+                   {"variant": v, "source": prog.source(v, tables=(name == "bulk")), "build_output": run["build_out"][-6000:]})
+        return False
+    if run["status"] != 0 or "done" not in run["lines"]:
+        last = list(run["lines"])[-1] if run["lines"] else None
+        chk.reject("crash:%s:%s" % (name, v), "the llgo-built program %s (variant %s) ended with status %s after id %s: %s" %
+                   (name, v, run["status"], last, run["extra"][-5:]),
+                   {"variant": v, "status": run["status"], "last_id": last, "meta": prog.meta.get(last), "tail": run["extra"][-20:]})
+    compare(prog, name, v, run, agreed, stats, findings)
+    return True
 
 
 def check(chk):
     thorough = chk.tier == "thorough"
     sd = C.seed()
-    rd = chk.rd.path
+    t_start = time.time()
     chk.cov["rule"] = ("case = type term built by TLC (ReflectCases: leaf + <= 2 constructor steps, depth 3 by seeded simulation) "
                        "x {reflect query | fmt verb on a value | reflected method call | DeepEqual pair}; plus every 3-node pointer "
                        "heap x root pair (CycEq) and every (kind, kind, boundary value) conversion / set (ConvSet); "
                        "distinct_nontrivial = distinct (term, query) lines whose expected text the reference toolchain confirmed; "
                        "evaluations = confirmed lines x llgo program variants compared")
+    judge = Judge(chk)
+    stats = {"evaluations": 0}
+    pool = ThreadPoolExecutor(max_workers=10)
 
-    # 1. fixed representative terms (seed independent)
+    # 1. fixed representative terms (seed independent): their own programs, judged first
     fixed = run_cases_tlc(chk, "fixed", {"MaxDepth": 0, "M0": 1, "M1": 1, "M2": 1, "M3": 1, "Sel": 0}, 600, fixed=True)
     if not fixed:
         raise C.Undecided("no fixed cases emitted")
-
-    pool = ThreadPoolExecutor(max_workers=8)
-
-    # 2. probes that need their own program: compiler-crash gate, module-path effect
-    gate_cases = [c for c in fixed.values() if gated(c["term"])]
-    gate_prog = Program()
-    for c in gate_cases:
-        gate_prog.add_case(c)
-    gate_fut = pool.submit(build_and_run, chk, "gate", gate_prog.source("dyn", tables=False), "", "llgo")
-    gate_ref_fut = pool.submit(build_and_run, chk, "gate-ref", gate_prog.source("dyn", tables=False), "", "go")
+    gate_cases = [fixed[k] for k in sorted(fixed) if gated(fixed[k]["term"])]
     modp_cases = [fixed[k] for k in sorted(fixed) if fixed[k].get("label") == "modpath"]
-    modp_prog = Program()
-    for c in modp_cases:
-        modp_prog.add_case(c)
-    modp_fut = pool.submit(build_and_run, chk, "modpath", modp_prog.source("none", tables=False), "", "llgo", "vmod")
-    modp_ref_fut = pool.submit(build_and_run, chk, "modpath-ref", modp_prog.source("none", tables=False), "", "go", "vmod")
+    fix_cases = [fixed[k] for k in sorted(fixed) if not gated(fixed[k]["term"])]
+    progs = {}
+    for nm, cs in (("gate", gate_cases), ("modpath", modp_cases), ("fixed", fix_cases)):
+        p = Program()
+        for c in cs:
+            p.add_case(c)
+        progs[nm] = p
+    small = {}
+    for nm, var, mod in (("gate", "dyn", "main"), ("modpath", "none", "vmod"), ("fixed", "dyn", "main")):
+        src = progs[nm].source(var, tables=False)
+        small[nm] = (pool.submit(build_and_run, chk, nm, src, "", "llgo", mod), pool.submit(build_and_run, chk, nm + "-ref", src, "", "go", mod), var)
 
-    # 3. enumerated / simulated terms, tables
+    # 2. enumerated / simulated terms, tables (TLC runs meanwhile)
     consts = select_consts(chk.tier, sd)
     enum_fut = pool.submit(run_cases_tlc, chk, "enum", consts, 3000)
     # simulation: TLC evaluates Emit on every successor of every visited state, so a trace offers ~30 depth-3 terms
-    sim_consts = {"MaxDepth": 3, "M0": 1000003, "M1": 1000003, "M2": 1000003, "M3": 40, "Sel": 1000002 + 1000003 * ((((sd % 40) - 2) * 27) % 40)}   # = 1000002 mod 1000003, = sd mod 40
+    sim_consts = {"MaxDepth": 3, "M0": 1000003, "M1": 1000003, "M2": 1000003, "M3": 40,
+                  "Sel": 1000002 + 1000003 * ((((sd % 40) - 2) * 27) % 40)}   # = 1000002 mod 1000003, = sd mod 40
     sim_fut = pool.submit(run_cases_sim, chk, "sim3", sim_consts, 50 if thorough else 20, 4, 1500, 8 if thorough else 2)
     cyc_fut = pool.submit(run_small, chk, "CycEq", "n3", {"N": 3, "Sel": 0, "Mod": 1}, ["Reflexive", "Symmetric", "Emit"])
     conv_fut = pool.submit(run_small, chk, "ConvSet", "all", None, ["RoundTrip", "Emit", "EmitPaths"])
+
+    # 3. judge the small programs: they decide which known classes are active
+    gate_open = True
+    small_findings = {}
+    for nm in ("gate", "modpath", "fixed"):
+        fut, ref_fut, var = small[nm]
+        p = progs[nm]
+        if not p.expected:
+            continue
+        ref = need_ref(ref_fut.result(), "the %s program" % nm)
+        ref["variant"] = var
+        agreed = reference_agreed(p, [ref], nm, chk)
+        run = fut.result()
+        f = []
+        if nm == "gate" and not run["ok"]:
+            gate_open = False
+            m = re.search(r"panic: [^\n]*", run["build_out"])
+            chk.reject("build:" + keyify(gate_cases[0]["key"]),
+                       "llgo's compiler fails on a program that mentions the type(s) %s: %s" %
+                       ([c["key"] for c in gate_cases], m.group(0) if m else run["build_out"][-300:]),
+                       {"terms": [c["key"] for c in gate_cases], "source": p.source(var, tables=False), "build_output": run["build_out"][-4000:]})
+            continue
+        judge_llgo_run(chk, p, nm, var, run, agreed, stats, f)
+        if nm == "modpath":
+            # one representative; the other lines are folded when they differ exactly by vmod for main
+            keep = []
+            for x in f:
+                x["key"] = "module=vmod:" + x["key"]
+                if finding_key(x) != MODPATH_REP and x["got"] is not None and x["got"].replace("vmod", "main") == x["want"] \
+                        and any(finding_key(y) == MODPATH_REP for y in f):
+                    judge.folded["module-path-as-pkgpath"] = judge.folded.get("module-path-as-pkgpath", 0) + 1
+                else:
+                    keep.append(x)
+            f = keep
+        small_findings[nm] = f
+    judge.activate(small_findings.get("fixed", []))
+    for nm, f in small_findings.items():
+        judge.report(f, progs[nm])
+
     enum, sim, cyc, conv = enum_fut.result(), sim_fut.result(), cyc_fut.result(), conv_fut.result()
     if len(cyc) != 512:
         raise C.Undecided("CycEq printed %d heaps, expected 512" % len(cyc))
     if not thorough:
         cyc = [c for i, c in enumerate(cyc) if (i + sd) % 4 == 0 or c["nx"] in ([1, 1, 1], [2, 1, 0], [2, 3, 1])]
 
-    # 4. gate result decides whether compiler-crashing shapes enter the bulk programs
-    gate = gate_fut.result()
-    gate_ref = gate_ref_fut.result()
-    if not gate_ref["ok"]:
-        raise C.Undecided("the reference toolchain cannot build the gate program:\n" + gate_ref["build_out"][-1500:])
-    gate_open = gate["ok"]
-
+    # 4. bulk programs
     cases = {}
     for src_cases in (fixed, enum, sim):
         for k, c in src_cases.items():
             cases.setdefault(k, c)
-    bulk = [c for k, c in sorted(cases.items()) if (gate_open or not gated(c["term"]))]
-    ngated = len(cases) - len(bulk)
-    prog = Program()
-    for c in bulk:
-        prog.add_case(c)
-    stdin = tables_input(prog, cyc, conv)
-    C.log("C15: %d terms (%d fixed, %d enumerated, %d simulated; %d gated away), %d expected lines" %
-          (len(bulk), len(fixed), len(enum), len(sim), ngated, len(prog.expected)))
-
-    # 5. programs: reference (all calls) + llgo variants
-    if thorough:
-        variants = VARIANTS
-    else:
-        variants = ["none", ["dyn", "idx", "const"][sd % 3]]
-    ref_fut = pool.submit(build_and_run, chk, "ref", prog.source("dyn"), stdin, "go")
-    ref2_fut = pool.submit(build_and_run, chk, "ref-idx", prog.source("idx"), stdin, "go")
-    ref3_fut = pool.submit(build_and_run, chk, "ref-const", prog.source("const"), stdin, "go")
-    runs = {}
-    futs = {v: pool.submit(build_and_run, chk, "llgo-" + v, prog.source(v), stdin, "llgo") for v in variants}
-    ref = ref_fut.result()
-    for r, nm in ((ref, "dyn"), (ref2_fut.result(), "idx"), (ref3_fut.result(), "const")):
-        if not r["ok"] or r["status"] != 0 or "done" not in r["lines"]:
-            raise C.Undecided("the reference toolchain cannot build/run the generated program (%s):\n%s\n%s" %
-                              (nm, r["build_out"][-2500:], r["extra"][:10]))
-
-    # 6. self-validation of the specification's texts: only lines the reference confirms are judged
-    agreed = set()
-    spec_bad = []
-    for i, want in prog.expected.items():
-        ok = all(r["lines"].get(i) == want for r in (ref, ref2_fut.result(), ref3_fut.result()))
-        if ok:
-            agreed.add(i)
-        else:
-            spec_bad.append({"id": i, "meta": prog.meta[i], "spec": want, "reference": ref["lines"].get(i)})
-    chk.cov["spec_lines"] = len(prog.expected)
-    chk.cov["spec_lines_rejected_by_reference"] = len(spec_bad)
-    if spec_bad:
-        C.log("C15: the reference toolchain disagrees with the specification on %d lines, e.g. %s" % (len(spec_bad), spec_bad[:3]))
-        chk.cov["spec_disagreement_samples"] = spec_bad[:10]
-    if len(spec_bad) > max(5, len(prog.expected) // 200):
-        raise C.Undecided("the specification disagrees with the reference toolchain on %d of %d lines: the specification is wrong; first: %s"
-                          % (len(spec_bad), len(prog.expected), spec_bad[:5]))
-
-    stats = {"evaluations": 0}
-    findings = []
-    for v in variants:
-        run = futs[v].result()
-        runs[v] = run
-        if not run["ok"]:
-            chk.reject("build:bulk:" + v, "llgo cannot build the generated program (variant %s): %s" % (v, run["build_out"][-1500:]),
-                       {"variant": v, "source": prog.source(v), "build_output": run["build_out"][-6000:]})
+    bulk = []
+    ngated = 0
+    avoided = {}
+    for k, c in sorted(cases.items()):
+        if gated(c["term"]) and not gate_open:
+            ngated += 1
             continue
-        if run["status"] != 0 or "done" not in run["lines"]:
-            last = list(run["lines"])[-1] if run["lines"] else None
-            chk.reject("crash:bulk:" + v, "the llgo-built program (variant %s) ended with status %s after id %s: %s" %
-                       (v, run["status"], last, run["extra"][-5:]),
-                       {"variant": v, "status": run["status"], "last_id": last, "meta": prog.meta.get(last), "tail": run["extra"][-20:]})
-        compare(chk, prog, "bulk", v, run, agreed, stats, findings)
-
-    # 7. negative control: one corrupted expectation must be flagged by the same comparison
-    probe_variant = next((v for v in variants if runs[v]["ok"] and runs[v]["lines"]), None)
-    if probe_variant is None:
-        raise C.Undecided("no llgo program ran: nothing was compared")
-    neg_id = next(i for i in sorted(agreed) if i.endswith(".str") and runs[probe_variant]["lines"].get(i) == prog.expected[i])
-    saved = prog.expected[neg_id]
-    prog.expected[neg_id] = saved + " "
-    neg_findings = []
-    compare(chk, prog, "bulk", probe_variant, runs[probe_variant], {neg_id}, {"evaluations": 0}, neg_findings)
-    prog.expected[neg_id] = saved
-    if len(neg_findings) != 1:
-        raise C.Undecided("negative control not flagged: the comparison does not compare anything")
-
-    # 8. gate and module-path probes
-    judge_gate(chk, gate_prog, gate, gate_ref, gate_cases, stats)
-    judge_modpath(chk, modp_prog, modp_fut.result(), modp_ref_fut.result(), stats)
-
-    # 9. fold the instances of known classes onto their representatives, reject the rest
-    report(chk, findings, prog)
+        av = judge.avoided(c["term"])
+        if av:
+            for a in av:
+                avoided[a] = avoided.get(a, 0) + 1
+            continue
+        bulk.append(c)
+    chunk_size = 1000
+    chunks = [bulk[i:i + chunk_size] for i in range(0, len(bulk), chunk_size)]
+    C.log("C15: %d terms in %d program(s) (%d fixed, %d enumerated, %d simulated; %d gated away, avoided %s) after %.0fs" %
+          (len(bulk), len(chunks), len(fixed), len(enum), len(sim), ngated, avoided, time.time() - t_start))
+    if thorough:
+        plan = lambda ci: ["none", VARIANTS[1 + (ci + sd) % 3]] if len(chunks) > 1 else VARIANTS
+    else:
+        plan = lambda ci: ["none", VARIANTS[1 + sd % 3]]
+    jobs = []
+    total_agreed = 0
+    for ci, chunk in enumerate(chunks):
+        prog = Program()
+        for c in chunk:
+            prog.add_case(c)
+        stdin = tables_input(prog, cyc, conv) if ci == 0 else ""
+        variants = plan(ci)
+        refs = [(v, pool.submit(build_and_run, chk, "ref%d-%s" % (ci, v), prog.source(v, tables=(ci == 0)), stdin, "go"))
+                for v in sorted(set(variants) | {"dyn"})]
+        runs = [(v, pool.submit(build_and_run, chk, "llgo%d-%s" % (ci, v), prog.source(v, tables=(ci == 0)), stdin, "llgo"))
+                for v in variants]
+        jobs.append((ci, prog, refs, runs))
+    neg_done = False
+    all_variants = set()
+    for ci, prog, refs, runs in jobs:
+        rr = []
+        for v, fut in refs:
+            r = need_ref(fut.result(), "the generated program %d (%s)" % (ci, v))
+            r["variant"] = v
+            rr.append(r)
+        agreed = reference_agreed(prog, rr, "bulk%d" % ci, chk)
+        total_agreed += len(agreed)
+        findings = []
+        for v, fut in runs:
+            run = fut.result()
+            all_variants.add(v)
+            okrun = judge_llgo_run(chk, prog, "bulk" if ci == 0 else "bulk%d" % ci, v, run, agreed, stats, findings)
+            # negative control: one corrupted expectation must be flagged by the same comparison
+            if okrun and not neg_done:
+                neg_id = next((i for i in sorted(agreed) if i.endswith(".str") and run["lines"].get(i) == prog.expected[i]), None)
+                if neg_id:
+                    saved = prog.expected[neg_id]
+                    prog.expected[neg_id] = saved + " "
+                    nf = []
+                    compare(prog, "neg", v, {"lines": {neg_id: run["lines"][neg_id]}}, {neg_id}, {"evaluations": 0}, nf)
+                    prog.expected[neg_id] = saved
+                    if len(nf) != 1:
+                        raise C.Undecided("negative control not flagged: the comparison does not compare anything")
+                    neg_done = True
+        judge.activate(findings)
+        judge.report(findings, prog)
+    if not neg_done:
+        raise C.Undecided("no llgo program ran far enough for the negative control: nothing was compared")
 
     chk.cov["evaluations"] = stats["evaluations"]
-    chk.cov["distinct_nontrivial"] = len(agreed)
+    chk.cov["distinct_nontrivial"] = total_agreed
     chk.cov["traces_validated_against_impl"] = stats["evaluations"]
     chk.cov["terms"] = len(bulk)
     chk.cov["terms_gated_away"] = ngated
-    chk.cov["variants"] = variants
+    chk.cov["terms_avoided_known_class"] = avoided
+    chk.cov["active_known_classes"] = sorted(judge.active)
+    chk.cov["variants"] = sorted(all_variants)
     chk.cov["cyc_heaps"] = len(cyc)
     chk.cov["conv_set_cases"] = len(conv)
     for k in list(cases)[:3]:
@@ -803,72 +975,10 @@ def check(chk):
         "ConvSet models wrap-around for 8/16-bit targets and representable values for wider ones (TLC integers are 32-bit)",
         "two-word function values: no size/identity facts of func values are queried; non-nil func/chan values are not generated",
         "byte-to-hex transliteration of opaque text (<<hex:..>>) is done by the driver",
+        "known-class folding: an instance is folded only if the class's representative (fixed term) fails in this run and the observed line "
+        "equals the expected line under the class's exact rewriting (counts in folded_into_known_classes)",
     ]
     pool.shutdown(wait=False)
-
-
-def judge_gate(chk, gate_prog, gate, gate_ref, gate_cases, stats):
-    if not gate_cases:
-        return
-    rep = keyify(gate_cases[0]["key"])
-    if not gate["ok"]:
-        m = re.search(r"panic: [^\n]*", gate["build_out"])
-        chk.reject("build:" + rep, "llgo's compiler fails on a program that mentions the type: %s" % (m.group(0) if m else gate["build_out"][-300:]),
-                   {"terms": [c["key"] for c in gate_cases], "source": gate_prog.source("dyn", tables=False),
-                    "build_output": gate["build_out"][-4000:]})
-        return
-    agreed = {i for i, w in gate_prog.expected.items() if gate_ref["lines"].get(i) == w}
-    f = []
-    compare(chk, gate_prog, "gate", "dyn", gate, agreed, stats, f)
-    report(chk, f, gate_prog)
-
-
-def judge_modpath(chk, prog, run, ref, stats):
-    if not prog.expected:
-        return
-    if not ref["ok"]:
-        raise C.Undecided("reference cannot build the module-path probe: " + ref["build_out"][-1000:])
-    if not run["ok"]:
-        chk.reject("build:modpath", "llgo cannot build the module-path probe", {"build_output": run["build_out"][-4000:]})
-        return
-    agreed = {i for i, w in prog.expected.items() if ref["lines"].get(i) == w}
-    f = []
-    compare(chk, prog, "modpath", "none", run, agreed, stats, f)
-    for x in f:
-        x["key"] = "module=vmod:" + x["key"]
-    report(chk, f, prog, fold=False)
-
-
-def finding_key(f):
-    return keyify("%s:%s" % (f["query"], f["key"]))
-
-
-def report(chk, findings, prog, fold=True):
-    """representatives first (deterministic keys); other instances are folded when a known class explains them exactly"""
-    by_key = {}
-    for f in findings:
-        by_key.setdefault(finding_key(f), []).append(f)
-    active = set()
-    for cid, rep, _, _ in CLASSES:
-        if rep in by_key:
-            active.add(cid)
-    folded = chk.cov.setdefault("folded_into_known_classes", {})
-    for key in sorted(by_key):
-        fs = by_key[key]
-        f = fs[0]
-        rep_of = [cid for cid, rep, _, _ in CLASSES if rep == key]
-        if not rep_of and fold and f["got"] is not None:
-            used = explain(f["want"], f["got"], f["query"].split(":")[0], active)
-            if used is None and f["key"].startswith("convert:") and f["got"] == "PANIC" and "convert-int-interface" in active:
-                used = ["convert-int-interface"]
-            if used:
-                for u in used:
-                    folded[u] = folded.get(u, 0) + len(fs)
-                continue
-        desc = "%s of %s: specification %r, llgo %r (variants %s)" % (f["query"], f["key"], f["want"], f["got"],
-                                                                     sorted({x["variant"] for x in fs}))
-        chk.reject(key, desc, {"term": f["key"], "query": f["query"], "expected": f["want"], "observed": f["got"],
-                               "variants": sorted({x["variant"] for x in fs}), "line_id": f["id"]})
 
 
 if __name__ == "__main__":
